@@ -1175,7 +1175,8 @@ func c19Judge(c *vfCase, s *c19Scn, can *vfCanary) {
 	}
 }
 
-// c19Recheck re-evaluates the history recorded in a replay file with the offline oracle.
+// c19Recheck re-evaluates the history recorded in a replay file with the offline oracle. The result only
+// goes to the trace: what decides a replay is the re-execution of the case on the current tree.
 func c19Recheck(c *vfCase) {
 	path := os.Getenv("VERIF_REPLAY_FILE")
 	if path == "" {
@@ -1197,8 +1198,7 @@ func c19Recheck(c *vfCase) {
 	}
 	fs, _ := c19Check(rp.Detail.Events, rp.Detail.Probes)
 	for _, f := range fs {
-		c.Logf("recorded history re-checked: %s: %s", f.Sig, f.Summary)
-		c.Violation(f.Sig, "[recorded history] "+f.Summary, map[string]any{"spec": rp.Detail.Spec, "events": rp.Detail.Events, "probes": rp.Detail.Probes})
+		c.Logf("recorded history re-checked offline: %s: %s", f.Sig, f.Summary)
 	}
 }
 
